@@ -1492,6 +1492,10 @@ def shrink(prog, same, budget=60):
                     lists = Sites(best).lists
                     if li >= len(lists) or j >= len(lists[li][0]):
                         break
+                    if any(st[0] == "return" for st in lists[li][0][j:j + chunk]):
+                        # keep returns: a missing return is accepted as well and would turn the witness into one of that defect
+                        j += 1
+                        continue
                     c = copy.deepcopy(best)
                     del Sites(c).lists[li][0][j:j + chunk]
                     if attempt(c):
